@@ -113,7 +113,7 @@ def generate(ctx):
     seeds = [core_text(rng), core_text(rng, ["ori"]), core_text(rng) + ";lines=5-10", q]
     for s in seeds:
         for pos in range(len(s) + 1):
-            for ch in (":", ";", " ", " ", "A", "g", "+", "٣"):
+            for ch in (":", ";", " ", " ", "A", "g", "+", "٣", "\u0661", "\uff11", "\U0001d7cf", "\u00b2", "\u06f1"):
                 strings.append(s[:pos] + ch + s[pos:])
                 if pos < len(s):
                     strings.append(s[:pos] + ch + s[pos + 1 :])
